@@ -8,6 +8,7 @@
 #include <cstdio>
 
 #include <sys/uio.h>
+#include <unistd.h>
 
 #include "message.h"
 
@@ -24,7 +25,14 @@ io::stream::stream(const streaminfo *from) : _srm(0), _cid(0), _inputFile(-1), _
 		return;
 	}
 	_srm = new ::mpt::stream;
-	_mpt_stream_setfile(&_srm->_info, _mpt_stream_fread(from), _mpt_stream_fwrite(from));
+	// source keeps (and closes) its descriptors: stream needs own ones
+	int rd = _mpt_stream_fread(from), wr = _mpt_stream_fwrite(from);
+	int nrd = (rd < 0) ? -1 : ::dup(rd);
+	int nwr = (wr < 0) ? -1 : ((wr == rd) ? nrd : ::dup(wr));
+	if (_mpt_stream_setfile(&_srm->_info, nrd, nwr) < 0) {
+		if (nrd >= 0) ::close(nrd);
+		if (nwr >= 0 && nwr != nrd) ::close(nwr);
+	}
 	int flags = mpt_stream_flags(from);
 	mpt_stream_setmode(_srm, flags & 0xff);
 	_srm->set_newline(MPT_stream_newline_read(flags),  _srm->Read);
